@@ -509,6 +509,17 @@ class Adapter:
         else:
             a.bs = []
 
+    def do_CollSet(self, ev):
+        a = self.obj('A', ev['k'])
+        items = [self.obj('B', b) for b in (1, 2) if ev['x'] & b]
+        form = self.rng.randrange(3)
+        if form == 0:
+            a.bs = items
+        elif form == 1:
+            a.set(bs=set(items))
+        else:
+            a.bs = tuple(reversed(items))
+
     def do_Delete(self, ev):
         o = self.obj(ev['e'], ev['k'])
         o.delete()
@@ -776,7 +787,7 @@ def mismatch_category(ev_key, outs_expected, out, ret):
         return 'keys' if ('Integrity' in outs_expected or out == 'Integrity') else 'flush'
     if 'CacheIndexError' in outs_expected or out == 'CacheIndexError':
         return 'keys'
-    if op in ('Delete', 'CollRemove', 'CollClear', 'BulkDelete'):
+    if op in ('Delete', 'CollRemove', 'CollClear', 'CollSet', 'BulkDelete'):
         return 'delete'
     if out == 'Integrity':
         return 'flush'
@@ -863,7 +874,7 @@ class Driver:
                     (ids_a if e == 'A' else ids_b).append(kk)
                     if e == 'B' and y:
                         ids_a.append(y)
-                elif op in ('SetV', 'GetV', 'Coll', 'LColl', 'CollClear'):
+                elif op in ('SetV', 'GetV', 'Coll', 'LColl', 'CollClear', 'CollSet'):
                     ids_a.append(kk)
                 elif op in ('SetU', 'GetU', 'GetRef', 'CollB'):
                     ids_b.append(kk)
@@ -914,7 +925,7 @@ class Driver:
             (ids_a if e == 'A' else ids_b).add(kk)
             if e == 'B' and y:
                 ids_a.add(y)
-        elif op in ('SetV', 'Coll', 'LColl', 'CollClear', 'GetV'):
+        elif op in ('SetV', 'Coll', 'LColl', 'CollClear', 'CollSet', 'GetV'):
             ids_a.add(kk)
         elif op in ('SetU', 'GetU', 'GetRef', 'CollB'):
             ids_b.add(kk)
@@ -930,7 +941,7 @@ class Driver:
         elif op in ('Delete', 'BulkDelete'):
             (ids_a if e == 'A' else ids_b).add(kk)
         liveA, liveB = set(view['liveA']), set(view['liveB'])
-        if op in ('Delete', 'BulkDelete', 'SetRef', 'SetMany', 'CollClear', 'CollRemove', 'Create'):
+        if op in ('Delete', 'BulkDelete', 'SetRef', 'SetMany', 'CollClear', 'CollSet', 'CollRemove', 'Create'):
             # relatives may be affected (cascade, unlinking, one-to-one rivals)
             ids_a |= liveA
             ids_b |= liveB
@@ -1086,7 +1097,7 @@ class Driver:
                 elif out == 'Integrity':
                     self.stats['flush_conflicts'] += 1
                     kinds.add('flush-conflict')
-                if key[0] == 'Delete' or key[0] in ('CollRemove', 'CollClear'):
+                if key[0] == 'Delete' or key[0] in ('CollRemove', 'CollClear', 'CollSet'):
                     self.stats['deletes'] += 1
                     kinds.add('delete')
                 if key[0] in ('Commit', 'End', 'EndExc', 'Rollback') or out == 'Integrity':
@@ -1308,7 +1319,7 @@ class Driver:
                     n = self.free_reads_state(ad, node, key, 'after')
                     self.stats['free_reads'] = self.stats.get('free_reads', 0) + n
                     kinds.add('read-after-unflushed-write')
-                if key[0] in ('Delete', 'CollRemove', 'CollClear'):
+                if key[0] in ('Delete', 'CollRemove', 'CollClear', 'CollSet'):
                     self.stats['deletes'] += 1
                     kinds.add('delete')
                 if key[0] in ('Commit', 'End', 'EndExc', 'Rollback') or out == 'Integrity':
